@@ -279,7 +279,7 @@ def fclient_client_destinationTripper_RoundTrip : List String := [
   "serverName := spec.ServerName(r.URL.Host)",
   "resolutionRetried := false",
   "resolutionResults := []ResolutionResult{}",
-  "retryResolution: if f.wellKnownSRV { if cached, ok := f.resolutionCache.Load(serverName); ok { if results, ok := cached.([]ResolutionResult); ok { resolutionResults = results } } if len(resolutionResults) == 0 { resolutionResults, err = ResolveServer(r.Context(), serverName) if err != nil { return nil, err } f.resolutionCache.Store(serverName, resolutionResults) } } else { resolutionResults = append(resolutionResults, ResolutionResult{Destination: r.URL.Host, Host: spec.ServerName(r.Host), TLSServerName: r.Host}) }",
+  "retryResolution: if f.wellKnownSRV { if cached, ok := f.resolutionCache.Load(serverName); ok { if results, ok := cached.([]ResolutionResult); ok { resolutionResults = results } } if len(resolutionResults) == 0 { ctx := withWellKnownTransport(r.Context(), f.wellKnownTransport()) resolutionResults, err = ResolveServer(ctx, serverName) if err != nil { return nil, err } f.resolutionCache.Store(serverName, resolutionResults) } } else { resolutionResults = append(resolutionResults, ResolutionResult{Destination: r.URL.Host, Host: spec.ServerName(r.Host), TLSServerName: r.Host}) }",
   "if len(resolutionResults) == 0 {",
   "return nil, fmt.Errorf(\"no address found for matrix host %v\", serverName)",
   "}",
@@ -310,7 +310,7 @@ def fclient_client_destinationTripper_getTransport : List String := [
   "if !ok {",
   "tr := &destinationTripperTransport{Transport: &http.Transport{DisableKeepAlives: !f.keepAlives, MaxIdleConnsPerHost: 1, IdleConnTimeout: destinationTripperLifetime, TLSClientConfig: &tls.Config{ServerName: tlsServerName, InsecureSkipVerify: f.skipVerify, ClientSessionCache: tls.NewLRUClientSessionCache(0)}, Dial: dialer.Dial, DialContext: dialer.DialContext, Proxy: http.ProxyFromEnvironment, ForceAttemptHTTP2: true}}",
   "if f.dnsCache != nil {",
-  "tr.DialContext = f.dnsCache.DialContext",
+  "tr.DialContext = f.dnsCache.dialContextVia(dialer)",
   "}",
   "transport, f.transports[tlsServerName] = tr, tr",
   "}",
@@ -331,8 +331,38 @@ def fclient_client_destinationTripper_reaper : List String := [
   "time.AfterFunc(destinationTripperReapInterval, f.reaper)"
 ]
 
+def fclient_client_destinationTripper_wellKnownTransport : List String := [
+  "func func() http.RoundTripper",
+  "if f.dialer.ControlContext == nil && f.dnsCache == nil {",
+  "return nil",
+  "}",
+  "f.transportsMutex.Lock()",
+  "defer f.transportsMutex.Unlock()",
+  "if f.wellKnown == nil {",
+  "var tr *http.Transport",
+  "if def, ok := http.DefaultTransport.(*http.Transport); ok {",
+  "tr = def.Clone()",
+  "} else {",
+  "tr = &http.Transport{Proxy: http.ProxyFromEnvironment}",
+  "}",
+  "tr.DialContext = f.dialer.DialContext",
+  "if f.dnsCache != nil {",
+  "tr.DialContext = f.dnsCache.dialContextVia(f.dialer)",
+  "}",
+  "tr.DialTLSContext = nil",
+  "tr.Dial, tr.DialTLS = nil, nil",
+  "f.wellKnown = tr",
+  "}",
+  "return f.wellKnown"
+]
+
 def fclient_dnscache_DNSCache_DialContext : List String := [
   "func func(ctx context.Context, network, address string) (net.Conn, error)",
+  "return c.dialContext(ctx, &c.dialer, address)"
+]
+
+def fclient_dnscache_DNSCache_dialContext : List String := [
+  "func func(ctx context.Context, dialer *net.Dialer, address string) (net.Conn, error)",
   "host, port, err := net.SplitHostPort(address)",
   "if err != nil {",
   "return nil, fmt.Errorf(\"net.SplitHostPort: %w\", err)",
@@ -343,7 +373,7 @@ def fclient_dnscache_DNSCache_DialContext : List String := [
   "return nil, fmt.Errorf(\"lookup failed for %q\", host)",
   "}",
   "for _, addr := range entry.addrs {",
-  "conn, err := c.dialer.DialContext(ctx, \"tcp\", addr.String()+\":\"+port)",
+  "conn, err := dialer.DialContext(ctx, \"tcp\", net.JoinHostPort(addr.String(), port))",
   "if err != nil {",
   "continue",
   "}",
@@ -357,6 +387,13 @@ def fclient_dnscache_DNSCache_DialContext : List String := [
   "goto retryLookup",
   "}",
   "return nil, fmt.Errorf(\"connection failed to %q via %d addresses\", host, len(entry.addrs))"
+]
+
+def fclient_dnscache_DNSCache_dialContextVia : List String := [
+  "func func(dialer *net.Dialer) func(ctx context.Context, network, address string) (net.Conn, error)",
+  "chained := *dialer",
+  "chained.ControlContext = chainControls(c.dialer.ControlContext, dialer.ControlContext)",
+  "return func(ctx context.Context, network, address string) (net.Conn, error) { return c.dialContext(ctx, &chained, address) }"
 ]
 
 def fclient_dnscache_DNSCache_lookup : List String := [
@@ -398,6 +435,11 @@ def fclient_dnscache__NewDNSCache : List String := [
   "return &DNSCache{resolver: net.DefaultResolver, size: size, duration: duration, entries: make(map[string]*dnsCacheEntry), dialer: net.Dialer{ControlContext: allowDenyNetworksControl(allowNetworks, denyNetworks)}}"
 ]
 
+def fclient_dnscache__chainControls : List String := [
+  "func func(controls ...controlFunc) controlFunc",
+  "return func(ctx context.Context, network, address string, conn syscall.RawConn) error { for _, control := range controls { if control == nil { continue } if err := control(ctx, network, address, conn); err != nil { return err } } return nil }"
+]
+
 def fclient_resolve__ResolveServer : List String := [
   "func func(ctx context.Context, serverName spec.ServerName) (results []ResolutionResult, err error)",
   "return resolveServer(ctx, serverName, true)"
@@ -408,9 +450,9 @@ def fclient_resolve__handleNoWellKnown : List String := [
   "records, err := lookupSRV(ctx, serverName)",
   "if err == nil && len(records) > 0 {",
   "for _, rec := range records {",
-  "target := rec.Target",
-  "if target[len(target)-1] == '.' {",
-  "target = target[:len(target)-1]",
+  "target := strings.TrimSuffix(rec.Target, \".\")",
+  "if target == \"\" {",
+  "continue",
   "}",
   "results = append(results, ResolutionResult{Destination: fmt.Sprintf(\"%s:%d\", target, rec.Port), Host: serverName, TLSServerName: string(serverName)})",
   "}",
@@ -482,6 +524,9 @@ def fclient_well_known__LookupWellKnown : List String := [
   "return nil, err",
   "}",
   "client := http.Client{Timeout: time.Second * 30}",
+  "if transport, ok := ctx.Value(wellKnownTransportKey{}).(http.RoundTripper); ok {",
+  "client.Transport = transport",
+  "}",
   "resp, err := client.Do(req)",
   "if err != nil {",
   "return nil, err",
@@ -494,7 +539,7 @@ def fclient_well_known__LookupWellKnown : List String := [
   "if l, err := strconv.Atoi(contentLengthHeader); err == nil && l > WellKnownMaxSize {",
   "return nil, fmt.Errorf(\"well-known content length %d exceeds %d bytes\", l, WellKnownMaxSize)",
   "}",
-  "cacheControlHeader := resp.Header.Get(\"Cache-Control\")",
+  "cacheControlHeader := strings.Join(resp.Header.Values(\"Cache-Control\"), \",\")",
   "expiresHeader := resp.Header.Get(\"Expires\")",
   "expiryTimestamp := int64(0)",
   "if expiresHeader != \"\" {",
@@ -525,16 +570,30 @@ def fclient_well_known__LookupWellKnown : List String := [
   "if len(body) > WellKnownMaxSize {",
   "return nil, fmt.Errorf(\"well-known response exceeds %d bytes\", WellKnownMaxSize)",
   "}",
-  "var document struct { NewAddress spec.ServerName `json:\"m.server\"` }",
+  "var document map[string]json.RawMessage",
   "err = json.Unmarshal(body, &document)",
   "if err != nil {",
   "return nil, err",
   "}",
-  "wellKnownResponse := &WellKnownResult{NewAddress: document.NewAddress, CacheExpiresAt: expiryTimestamp}",
+  "var newAddress spec.ServerName",
+  "if rawAddress, ok := document[\"m.server\"]; ok {",
+  "if err = json.Unmarshal(rawAddress, &newAddress); err != nil {",
+  "return nil, err",
+  "}",
+  "}",
+  "wellKnownResponse := &WellKnownResult{NewAddress: newAddress, CacheExpiresAt: expiryTimestamp}",
   "if wellKnownResponse.NewAddress == \"\" {",
   "return nil, errors.New(\"No m.server key found in well-known response\")",
   "}",
   "return wellKnownResponse, nil"
+]
+
+def fclient_well_known__withWellKnownTransport : List String := [
+  "func func(ctx context.Context, transport http.RoundTripper) context.Context",
+  "if transport == nil {",
+  "return ctx",
+  "}",
+  "return context.WithValue(ctx, wellKnownTransportKey{}, transport)"
 ]
 
 def spec_servername__ParseAndValidateServerName : List String := [
@@ -603,6 +662,6 @@ def spec_servername__splitServerName : List String := [
   "return nameStr[:lastColon], int(port)"
 ]
 
-def functions : List String := ["fclient/client.go:Client.CreateMediaDownloadRequest", "fclient/client.go:Client.DoHTTPRequest", "fclient/client.go:Client.DoRequestAndParseResponse", "fclient/client.go:Client.GetServerKeys", "fclient/client.go:Client.GetVersion", "fclient/client.go:Client.LookupServerKeys", "fclient/client.go:Client.LookupUserInfo", "fclient/client.go:Client.SetUserAgent", "fclient/client.go:.NewClient", "fclient/client.go:.WithAllowDenyNetworks", "fclient/client.go:.WithDNSCache", "fclient/client.go:.WithKeepAlives", "fclient/client.go:.WithSkipVerify", "fclient/client.go:.WithTimeout", "fclient/client.go:.WithTransport", "fclient/client.go:.WithUserAgent", "fclient/client.go:.WithWellKnownSRVLookups", "fclient/client.go:.allowDenyNetworksControl", "fclient/client.go:.inRange", "fclient/client.go:.isAllowed", "fclient/client.go:.makeHTTPSURL", "fclient/client.go:.newDestinationTripper", "fclient/client.go:.newDestinationTripperDialer", "fclient/client.go:destinationTripper.RoundTrip", "fclient/client.go:destinationTripper.getTransport", "fclient/client.go:destinationTripper.reaper", "fclient/dnscache.go:DNSCache.DialContext", "fclient/dnscache.go:DNSCache.lookup", "fclient/dnscache.go:.NewDNSCache", "fclient/resolve.go:.ResolveServer", "fclient/resolve.go:.handleNoWellKnown", "fclient/resolve.go:.lookupSRV", "fclient/resolve.go:.resolveServer", "fclient/well_known.go:.LookupWellKnown", "spec/servername.go:.ParseAndValidateServerName", "spec/servername.go:.isDNSNameChar", "spec/servername.go:.splitServerName"]
+def functions : List String := ["fclient/client.go:Client.CreateMediaDownloadRequest", "fclient/client.go:Client.DoHTTPRequest", "fclient/client.go:Client.DoRequestAndParseResponse", "fclient/client.go:Client.GetServerKeys", "fclient/client.go:Client.GetVersion", "fclient/client.go:Client.LookupServerKeys", "fclient/client.go:Client.LookupUserInfo", "fclient/client.go:Client.SetUserAgent", "fclient/client.go:.NewClient", "fclient/client.go:.WithAllowDenyNetworks", "fclient/client.go:.WithDNSCache", "fclient/client.go:.WithKeepAlives", "fclient/client.go:.WithSkipVerify", "fclient/client.go:.WithTimeout", "fclient/client.go:.WithTransport", "fclient/client.go:.WithUserAgent", "fclient/client.go:.WithWellKnownSRVLookups", "fclient/client.go:.allowDenyNetworksControl", "fclient/client.go:.inRange", "fclient/client.go:.isAllowed", "fclient/client.go:.makeHTTPSURL", "fclient/client.go:.newDestinationTripper", "fclient/client.go:.newDestinationTripperDialer", "fclient/client.go:destinationTripper.RoundTrip", "fclient/client.go:destinationTripper.getTransport", "fclient/client.go:destinationTripper.reaper", "fclient/client.go:destinationTripper.wellKnownTransport", "fclient/dnscache.go:DNSCache.DialContext", "fclient/dnscache.go:DNSCache.dialContext", "fclient/dnscache.go:DNSCache.dialContextVia", "fclient/dnscache.go:DNSCache.lookup", "fclient/dnscache.go:.NewDNSCache", "fclient/dnscache.go:.chainControls", "fclient/resolve.go:.ResolveServer", "fclient/resolve.go:.handleNoWellKnown", "fclient/resolve.go:.lookupSRV", "fclient/resolve.go:.resolveServer", "fclient/well_known.go:.LookupWellKnown", "fclient/well_known.go:.withWellKnownTransport", "spec/servername.go:.ParseAndValidateServerName", "spec/servername.go:.isDNSNameChar", "spec/servername.go:.splitServerName"]
 
 end VPins.C16
